@@ -3,7 +3,7 @@ from .c01 import TB
 
 
 def run(res):
-    n = 120 if res.tier == "quick" else 5000
+    n = 200 if res.tier == "quick" else 5000
     lib.standard_check(
         res, "c03", n,
         prop_files=["theories/Properties/C03.v"],
